@@ -4,8 +4,8 @@ import NetaddrVerif.Lemmas.Minimal
 import NetaddrVerif.Lemmas.NetworkL
 /-! Helper lemmas for C09 (cidr_partition / cidr_exclude): from the loop invariants of
     `Partition.lean` / `PartStruct.lean` to canonical block lists. -/
-namespace NV
-open Blk
+namespace NV.C09L
+open NV Blk
 
 /-- a network of the family of width `w` -/
 structure PWF (w : Nat) (b : Pfx) : Prop where
@@ -17,7 +17,7 @@ def blk (w : Nat) (b : Pfx) : Blk := ⟨b.val, w - b.plen⟩
 def blks (w : Nat) (l : List Pfx) : List Blk := l.map (blk w)
 
 /-- the address set of a network, host bits or not: `first .. last` -/
-def Pfx.mem (w : Nat) (b : Pfx) (a : Nat) : Prop := b.first w ≤ a ∧ a ≤ b.last w
+def _root_.NV.Pfx.mem (w : Nat) (b : Pfx) (a : Nat) : Prop := b.first w ≤ a ∧ a ≤ b.last w
 
 theorem den_blks (w : Nat) (l : List Pfx) (a : Nat) : den (blks w l) a ↔ lden w l a := by
   simp only [den, blks, lden, List.mem_map]
@@ -213,4 +213,4 @@ theorem chain_of_rightOK (w : Nat) (l : List Pfx) (h : RightOK w l) (hp : ∀ b 
         simp only [blk]; omega
     exact this l hp h2
 
-end NV
+end NV.C09L
